@@ -2398,7 +2398,13 @@ class Summariser:
                         # a class-level attribute that no method ever assigns on the instance
                         for k in self.prog.mro(self.cls):
                             if e.attr in k.class_attrs:
-                                return self._expr(k.class_attrs[e.attr], events)
+                                # names in the class body are names of the module that defines the class
+                                v = self._const_term(k.module, k.class_attrs[e.attr])
+                                if v is None and isinstance(k.class_attrs[e.attr], ast.Name):
+                                    r = self.prog.resolve_name(k.module, k.class_attrs[e.attr].id)
+                                    if r and r[0] == "module":
+                                        v = ("global", r[1].name)
+                                return v if v is not None else self._expr(k.class_attrs[e.attr], events)
                 return self.field(self.fname(e.attr))
             if isinstance(e.value, ast.Name) and self.env.get(e.value.id, ("?",))[0] == "owned":
                 o = self.env[e.value.id]
@@ -2747,6 +2753,14 @@ class Summariser:
             res = ("res", self.site(e), f"self.{fn_}", args, kwargs)
             events.append(Call(f"self.{fn_}", None, recv, args, kwargs, res, line))
             return res
+        # self.NAME.function(...) with NAME a class-level alias of a module (`_rng = random`)
+        if isinstance(f, ast.Attribute) and isinstance(f.value, ast.Attribute) and self.is_self(f.value.value) \
+                and self.cls is not None and self.fname(f.value.attr) not in self.fields and \
+                f.value.attr not in self.prog.instance_attrs(self.cls) and \
+                any(f.value.attr in k.class_attrs for k in self.prog.mro(self.cls)):
+            held = self._expr(f.value, events)
+            if held[0] == "global" and not held[1].startswith(("?", "builtins.")):
+                return self._dotted_call(held[1] + "." + f.attr, args, kwargs, events, e)
         # self.field.method(...)
         if isinstance(f, ast.Attribute) and isinstance(f.value, ast.Attribute) and self.is_self(f.value.value) \
                 and not self._is_property(f.value.attr):
